@@ -1,6 +1,6 @@
 #!/usr/bin/env python3
 """Regenerates MANIFEST.json from the table below. A property is claimed only when
-harness/<cxx>/cmd exists (its monitor is built); otherwise it is listed under not_applicable
+harness/<cxx>/READY exists (its monitor is built and accepted); otherwise it is listed under not_applicable
 with the reason 'monitor not built yet'."""
 import json, os, subprocess
 here = os.path.dirname(os.path.abspath(__file__))
@@ -69,7 +69,7 @@ P = {
 }
 
 def built(pid):
-    return os.path.isdir(os.path.join(here, "harness", pid.lower(), "cmd"))
+    return os.path.isfile(os.path.join(here, "harness", pid.lower(), "READY"))
 
 env = "cd /verif && "
 checks, na = [], []
